@@ -235,11 +235,20 @@ fn no_value_reads(m: &Machine) -> [u8; 7] {
     out
 }
 
+/// bits of the board status no statement pins are adopted from the tree after a port write
+fn adopt(m: &Machine, rf: &mut Ref, before: &crate::boardref::BoardRef, a: u8, val: u8) {
+    if a == 0xF2 || a == 0xF3 {
+        let b = m.bus().board();
+        rf.board.adopt_after_write(a, val, before, b.dasr().bits(), b.daisr().bits());
+    }
+}
+
 fn run_history(ops: &[Op], ctx: &mut Ctx) -> Result<(), Violation> {
     let (mut m, mut rf) = fresh();
     let mut last_writer: [u8; 256] = [0; 256];
     for (i, op) in ops.iter().enumerate() {
         let nv_before = no_value_reads(&m);
+        let board_before = rf.board.clone();
         match op {
             Op::S(s) => {
                 let f9_before = m.bus().read(0xF9);
@@ -255,7 +264,8 @@ fn run_history(ops: &[Op], ctx: &mut Ctx) -> Result<(), Violation> {
                     s.apply(&mut m);
                     ref_apply_env(&mut rf, s);
                 }
-                if let Stim::BusWrite(a, _) = s {
+                if let Stim::BusWrite(a, val) = s {
+                    adopt(&m, &mut rf, &board_before, *a, *val);
                     last_writer[*a as usize] = 1;
                     ctx.cov.set("boundary-address-written-directly", *a as u64 * ((*a == 0xEF || *a == 0xF0 || *a == 0xFB || *a == 0xFC) as u64));
                     if *a == 0xF9 && m.bus().read(0xF9) != f9_before {
@@ -272,6 +282,7 @@ fn run_history(ops: &[Op], ctx: &mut Ctx) -> Result<(), Violation> {
                     return Err(v("harness", i, "helper program did not stop".into()));
                 }
                 rf.poke(*a, *val);
+                adopt(&m, &mut rf, &board_before, *a, *val);
                 last_writer[*a as usize] = 2;
                 ctx.cov.fault("CPU-WRITE");
                 ctx.cov.set("boundary-address-written-by-cpu", *a as u64 * ((*a == 0xEF || *a == 0xF0 || *a == 0xFB || *a == 0xFC) as u64));
@@ -358,8 +369,10 @@ fn run_single_writes(byte: u8, ctx: &mut Ctx) -> Result<(), Violation> {
             ref_apply_env(&mut rf, &s);
         }
         let mem_before = *m.bus().memory();
-        m.raw_mut().bus_mut().write(a, byte);
+        let bb = rf.board.clone();
+        let _ = m.raw_mut().bus_mut().write(a, byte);
         rf.poke(a, byte);
+        adopt(&m, &mut rf, &bb, a, byte);
         if a >= 0xF0 && *m.bus().memory() != mem_before {
             return Err(v("io-write-leaks-into-ram", a as usize, format!("write(0x{:02X}, 0x{:02X}) changed RAM", a, byte)));
         }
@@ -382,10 +395,14 @@ fn run_pairs(a1: u8, ctx: &mut Ctx) -> Result<(), Violation> {
     for a2 in 0..=255u8 {
         let (mut m, mut rf) = fresh();
         let (v1, v2) = (0xA5u8 ^ a1, 0x5Au8 ^ a2.rotate_left(3));
-        m.raw_mut().bus_mut().write(a1, v1);
+        let bb = rf.board.clone();
+        let _ = m.raw_mut().bus_mut().write(a1, v1);
         rf.poke(a1, v1);
-        m.raw_mut().bus_mut().write(a2, v2);
+        adopt(&m, &mut rf, &bb, a1, v1);
+        let bb = rf.board.clone();
+        let _ = m.raw_mut().bus_mut().write(a2, v2);
         rf.poke(a2, v2);
+        adopt(&m, &mut rf, &bb, a2, v2);
         if let Some(d) = map_diff(&m, &rf) {
             return Err(v("address-map", a2 as usize, format!("after write(0x{:02X}, 0x{:02X}) then write(0x{:02X}, 0x{:02X}): {}", a1, v1, a2, v2, d)));
         }
